@@ -49,7 +49,8 @@ def strat_case(draw, tier):
     return {"model": draw(strat_model()), "T": draw(_f(0.1, 3.0)), "nk": draw(st.integers(3, 9)),
             "scalar_k": draw(st.floats(0.2, 0.8)),
             "declare": draw(st.sampled_from([None, None, "TILDE", "ONEONE", "CENTER"])),
-            "notional": draw(st.sampled_from([1.0, 2.5, 100.0, 0.01]))}
+            "notional": draw(st.sampled_from([1.0, 2.5, 100.0, 0.01])),
+            "nlong": draw(st.sampled_from([129, 150, 200, 256, 301]))}
 
 
 def _ladder(pricer, spot, T, nk, carry=0.0):
@@ -210,6 +211,29 @@ def body_arbitrage(case):
     pf = np.asarray(p1.price(Product(Spot(), Forward(strike=float(ks[1])), maturity=T)), dtype=float)
     if not np.allclose(pc, calls, rtol=0, atol=1e-12 * spot) or abs(float(pp.ravel()[0]) - puts[1]) > 1e-12 * spot or abs(float(pf.ravel()[0]) - fw[1]) > 1e-12 * spot:
         out.append(Violation(f"C18/cos/{br}/price-dispatch", detail))
+    # price() supports forwards, calls and puts only: a digital product is either refused or priced as a digital
+    from rpylib.product.payoff import Digital
+
+    try:
+        pd_ = float(np.asarray(p1.price(Product(Spot(), Digital(strike=float(ks[1]), payoff_type=PayoffType.CALL), maturity=T))).ravel()[0])
+    except NotImplementedError:
+        pd_ = None
+    if pd_ is not None and abs(pd_ - float(np.asarray(p1.digital(np.array([ks[1]]), T)).ravel()[0])) > 1e-9:
+        out.append(Violation(f"C18/cos/{br}/price-of-a-digital-product-is-not-the-digital-price",
+                             f"price(digital product, K={ks[1]}) = {pd_} vs digital() = {p1.digital(np.array([ks[1]]), T)}; {detail}"))
+    # a long strike vector (bins of a density plot) gives the prices of its entries taken a few at a time
+    nlong = case.get("nlong", 150)
+    kl = np.exp(np.linspace(np.log(ks[0]), np.log(ks[-1]), nlong))
+    for fn_name in ("put", "digital"):
+        fn = getattr(p1, fn_name)
+        whole = np.asarray(fn(kl, T), dtype=float)
+        parts = np.concatenate([np.asarray(fn(kl[i:i + 50], T), dtype=float) for i in range(0, nlong, 50)])
+        if whole.shape != parts.shape or not np.allclose(whole, parts, rtol=0, atol=1e-12 * max(spot, kl[-1])):
+            j = int(np.argmax(np.abs(whole - parts))) if whole.shape == parts.shape else -1
+            out.append(Violation(f"C18/cos/{br}/long-strike-vector-differs-from-its-pieces",
+                                 f"{fn_name} over {nlong} strikes: entry {j} is {whole[j] if j >= 0 else whole.shape} in the "
+                                 f"whole vector and {parts[j] if j >= 0 else parts.shape} priced 50 at a time; {detail}"))
+            break
     # the same through price() for products with a notional: whatever the convention (price() of the unit product, as
     # now, or notional x price), call - put = forward must hold between the three products and the three must scale alike
     N = case.get("notional", 2.5)
